@@ -191,7 +191,7 @@ def prove_prefix(ctx, ex, p, rel, candidates, msg, site, replay=None):
             ctx.out.obligations -= 1
     arr, total = concat_view(ex, p, rel)
     spec = z3.Or(*[prefix_oracle(arr, bv64(0), total, chunks) for chunks in candidates])
-    return ctx.prove(ex, p, spec, msg, site)
+    return ctx.prove(ex, p, spec, msg, site, replay=replay)
 
 
 def framed_spec(decoder, cfg, expect, cand_names, extra_cfg=None):
